@@ -274,11 +274,248 @@ def socks_blobs(tier):
     return out
 
 
+# ------------------------------------------------------------------ a hostile ssh-agent (a forwarded agent is the peer's)
+def agent_calls():
+    k = keyset()['ssh-ed25519']
+    blob = k.public_data
+
+    def S(b):
+        return len(b).to_bytes(4, 'big') + b
+    ident = bytes([12]) + (2).to_bytes(4, 'big') + S(blob) + S(b'comment one') + S(blob) + S(b'')
+    return [
+        ('get_keys', lambda a: a.get_keys(), ident),
+        ('sign', lambda a: a.sign(blob, b'data'), bytes([14]) + S(S(b'ssh-ed25519') + S(bytes(64)))),
+        ('query_extensions', lambda a: a.query_extensions(), bytes([6]) + S(b'query') + S(b'session-bind@openssh.com')),
+        ('remove_all', lambda a: a.remove_all(), bytes([6])),
+        ('lock', lambda a: a.lock('pw'), bytes([6])),
+        ('add_keys', lambda a: a.add_keys([k]), bytes([6])),
+    ]
+
+
+def agent_replies(good):
+    """(label, raw bytes the agent sends, then closes?)"""
+    def frame(p):
+        return len(p).to_bytes(4, 'big') + p
+    out = [('good', frame(good), False)]
+    for i in range(len(good)):
+        out.append(('trunc@%d' % i, frame(good[:i]), False))
+    for i in range(len(good)):
+        for r in (0, 1, 0x7f, 0xff):
+            if good[i] != r:
+                out.append(('byte%d=%02x' % (i, r), frame(good[:i] + bytes([r]) + good[i + 1:]), False))
+    out.append(('trailing', frame(good + b'\0'), False))
+    for t in list(range(0, 31)) + [255]:
+        out.append(('type%d' % t, frame(bytes([t]) + good[1:]), False))
+    for ln in (0, 1, len(good) - 1, len(good) + 1, 2 ** 31 - 1, 2 ** 32 - 1):
+        out.append(('len=%d+eof' % ln, ln.to_bytes(4, 'big') + good, True))
+    out.append(('eof-at-once', b'', True))
+    out.append(('eof-in-length', b'\0\0', True))
+    return out
+
+
+def agent_worker(job):
+    from asyncssh.agent import SSHAgentClient
+    acc = core.Acc()
+    for ci in job:
+        name, call, good = agent_calls()[ci]
+        for label, raw, then_eof in agent_replies(good):
+            loop = P.fresh(0)
+            loop.write_budget = 300
+            viol = []
+            out = 'pending'
+            try:
+                class FakeAgent(asyncio.Protocol):
+                    def connection_made(self, transport):
+                        self.t = transport
+
+                    def data_received(self, data):
+                        self.t.write(raw)
+                        if then_eof:
+                            self.t.close()
+                st = loop.create_task(loop.create_unix_server(FakeAgent, '/vagent'))
+                loop.flush_all()
+                st.result()
+                agent = SSHAgentClient('/vagent')
+
+                async def go():
+                    try:
+                        return ('ok', await call(agent))
+                    finally:
+                        agent.close()
+                t = loop.create_task(go())
+                try:
+                    loop.flush_all()
+                except Livelock as exc:
+                    viol.append(('livelock', str(exc)))
+                if not t.done():
+                    if then_eof or not ('len=' in label):
+                        # a complete (if wrong) reply was sent: the call has everything it is going to get
+                        if not (label.startswith('trunc') or label.startswith('byte')) or True:
+                            viol.append(('agent-call-hangs', '%s never returned' % name))
+                    out = 'pending'
+                    t.cancel()
+                    try:
+                        loop.flush_all()
+                    except Livelock:
+                        pass
+                elif t.exception() is not None:
+                    exc = t.exception()
+                    out = type(exc).__name__
+                    if not isinstance(exc, ValueError):
+                        viol.append(('undocumented-error', '%s raised %r' % (name, exc)))
+                else:
+                    out = 'returned'
+                lexc = loop.unretrieved()
+                if lexc:
+                    viol.append(('loop-exception', repr(lexc[0].get('exception') or lexc[0].get('message'))[:200]))
+                if loop.budget_tripped:
+                    viol.append(('work-budget', loop.budget_tripped))
+            finally:
+                P.done(loop)
+            acc.add(core.digest(('agent', name, label, out)), transitions=1,
+                    sample={'agent_call': name, 'reply': label, 'outcome': out} if label == 'trunc@5' else None)
+            acc.count('agent-outcome:%s' % out)
+            for k, d in viol:
+                acc.violation('agent:%s:%s:%s' % (k, name, label.split('@')[0].split('=')[0].rstrip('0123456789')), '%s ; reply %s' % (d, label),
+                              {'kind': 'agent', 'call': ci, 'label': label})
+    return acc
+
+
+# ------------------------------------------------------------------ a hostile SFTP server: reply bodies
+def sftp_calls():
+    return [('stat', lambda c: c.stat('/f')), ('listdir', lambda c: c.listdir('/d')), ('realpath', lambda c: c.realpath('/d/..')),
+            ('readlink', lambda c: c.readlink('/l')), ('read', None), ('statvfs', lambda c: c.statvfs('/')),
+            ('open', lambda c: c.open('/f', 'rb')), ('getsize', lambda c: c.getsize('/f')), ('exists', lambda c: c.exists('/f'))]
+
+
+def sftp_hostile_worker(job):
+    """every truncation and single-byte replacement (and wrong length prefixes) of the reply to one SFTP client
+    call: the call returns or raises SFTPError; afterwards the session still works or has ended cleanly"""
+    import refsftp as RS
+    acc = core.Acc()
+    for ci in job:
+        name, call = sftp_calls()[ci]
+        # learn the good reply
+        good = {}
+
+        def run(mutate, misframed=False):
+            # misframed: the length prefix lies, so the byte stream loses its packet boundaries; the
+            # server then never completes another packet and a later request legitimately waits
+            loop = P.fresh(0)
+            loop.write_budget = 600
+            res = {'out': 'pending', 'viol': [], 'misframed': misframed}
+            try:
+                srv = RS.RefSFTP(loop, extensions=[(b'statvfs@openssh.com', b'2')])
+                srv.put_file(b'/f', b'0123456789')
+                srv.dirs[b'/d'] = [(b'x', 'f', None), (b'y', 'd', None)]
+                srv.links[b'/l'] = b'/f'
+                start, conn = RS.start_client(loop, srv)
+                for _ in range(20):
+                    loop.quiesce()
+                    if start.done():
+                        break
+                    if srv.pending:
+                        srv.answer(0)
+                sftp = start.result()
+
+                async def go():
+                    if name == 'read':
+                        f = await sftp.open('/f', 'rb')
+                        res['armed'] = True
+                        return await f.read(4, 2)
+                    res['armed'] = True
+                    return await call(sftp)
+                t = loop.create_task(go())
+                steps = 0
+                target = {'open': 'OPEN', 'read': 'READ', 'listdir': 'READDIR', 'statvfs': 'EXTENDED', 'realpath': 'REALPATH', 'readlink': 'READLINK'}.get(name, 'STAT')
+                hit = False
+                while True:
+                    loop.quiesce()
+                    if t.done() or not srv.pending:
+                        break
+                    req = srv.pending[0]
+                    if not hit and res.get('armed') and RS.FXP.get(target) == req.type and not (name == 'read' and req.type != RS.FXP['READ']):
+                        hit = True
+                        srv.mutate = mutate
+                        srv.answer(0)
+                        srv.mutate = None
+                    else:
+                        srv.answer(0)
+                    steps += 1
+                    if steps > 200:
+                        raise Livelock('too many requests')
+                if not t.done():
+                    res['out'] = 'pending'
+                elif t.exception() is not None:
+                    exc = t.exception()
+                    res['out'] = type(exc).__name__
+                    if not isinstance(exc, (asyncssh.SFTPError, asyncssh.Error)):
+                        res['viol'].append(('undocumented-error', '%s raised %r' % (name, exc)))
+                else:
+                    res['out'] = 'returned'
+                # the session afterwards: a following request is served, or the client reports the session ended
+                if not t.done():
+                    t.cancel()
+                t2 = loop.create_task(sftp.lstat('/f'))
+                for _ in range(50):
+                    loop.quiesce()
+                    if t2.done() or not srv.pending:
+                        break
+                    srv.answer(0)
+                if not t2.done():
+                    if res['out'] != 'pending' and not res.get('misframed'):
+                        res['viol'].append(('session-stuck', 'a request after the malformed reply never completes'))
+                    t2.cancel()
+                elif t2.exception() is not None and not isinstance(t2.exception(), (asyncssh.SFTPError, asyncssh.Error)):
+                    res['viol'].append(('undocumented-error', 'following request raised %r' % (t2.exception(),)))
+                try:
+                    loop.quiesce()
+                except Livelock:
+                    pass
+                lexc = loop.unretrieved()
+                if lexc:
+                    res['viol'].append(('loop-exception', repr(lexc[0].get('exception') or lexc[0].get('message'))[:200]))
+                if loop.budget_tripped:
+                    res['viol'].append(('work-budget', loop.budget_tripped))
+            except Livelock as exc:
+                res['viol'].append(('livelock', str(exc)))
+            finally:
+                P.done(loop)
+            return res
+
+        def grab(p):
+            good['p'] = p
+            return None
+        base = run(grab)
+        if 'p' not in good or base['out'] != 'returned':
+            acc.violation('sftpclient:harness:%s' % name, 'baseline call did not work: %r' % (base,), {'kind': 'sftp-hostile', 'call': ci, 'label': 'base'})
+            continue
+        g = good['p']
+
+        def frame(p):
+            return len(p).to_bytes(4, 'big') + p
+        muts = [('trunc@%d' % i, frame(g[:i])) for i in range(len(g))]
+        muts += [('byte%d=%02x' % (i, r), frame(g[:i] + bytes([r]) + g[i + 1:])) for i in range(len(g)) for r in (0, 1, 0x7f, 0xff) if g[i] != r and not 1 <= i <= 4]
+        muts += [('trailing', frame(g + b'\0')), ('len-short', (len(g) - 1).to_bytes(4, 'big') + g), ('len-zero', b'\0\0\0\0' + g),
+                 ('len-huge', b'\xff\xff\xff\xff' + g), ('len-long', (len(g) + 3).to_bytes(4, 'big') + g)]
+        for label, raw in muts:
+            res = run(lambda p, raw=raw: raw, misframed=label.startswith('len-'))
+            acc.add(core.digest(('sftp-hostile', name, label, res['out'])), transitions=2,
+                    sample={'sftp_client_call': name, 'reply': label, 'outcome': res['out']} if label == 'trunc@9' else None)
+            acc.count('sftpclient-outcome:%s' % res['out'])
+            for k, d in res['viol']:
+                acc.violation('sftpclient:%s:%s:%s' % (k, name, label.split('@')[0].split('=')[0].rstrip('0123456789')), '%s ; reply %s' % (d, label),
+                              {'kind': 'sftp-hostile', 'call': ci, 'label': label})
+    return acc
+
+
 def run(tier, seed):
     n = len(corpus(tier))
     acc = core.pmap(run_item, core.rotate([(i, tier) for i in range(n)], seed))
     sb = socks_blobs(tier)
     acc.merge(core.pmap(socks_worker, [sb[i::16] for i in range(16)]))
+    acc.merge(core.pmap(agent_worker, [[i] for i in range(len(agent_calls()))]))
+    acc.merge(core.pmap(sftp_hostile_worker, [[i] for i in range(len(sftp_calls()))]))
     return acc
 
 
@@ -286,6 +523,14 @@ def replay(r):
     acc = core.Acc()
     if r['kind'] == 'socks':
         return socks_worker([(bytes.fromhex(r['blob']), r['split'])])
+    if r['kind'] == 'sftp-hostile':
+        full = sftp_hostile_worker([r['call']])
+        full.violations = [v for v in full.violations if v['replay'].get('label') == r['label']]
+        return full
+    if r['kind'] == 'agent':
+        full = agent_worker([r['call']])
+        full.violations = [v for v in full.violations if v['replay'].get('label') == r['label']]
+        return full
     for entry, label, fn, allowed, seed, _u in corpus('thorough'):
         if entry == r['entry'] and label == r['label']:
             data = bytes.fromhex(r['data']) if 'data' in r else seed
